@@ -13,6 +13,7 @@ from dalimc.aio.engine import execute, Caller
 
 ID = "C16"
 OPTIMISED_STRIDE = {"quick": 12, "thorough": 24}      # every k-th shard once more in an interpreter started with -O
+TRACE_STRIDE = {"quick": 8, "thorough": 16}      # every k-th shard once more with logging enabled down to TRACE
 LEVEL = "model_checking"
 ENGINE = "E3"
 TECHNIQUE = "controlled-scheduler exploration (deviation-bounded) of the real asyncio drivers against gateway models that keep ground truth per command; scripted-gateway enumeration for the synchronous drivers"
